@@ -63,6 +63,15 @@ fn main() {
         "C04" | "C05" => props::c04_c05::run(&id, run),
         "C13" => props::c13::run(run),
         "C14" => props::c14::run(run),
+        #[cfg(feature = "vclock")]
+        "C15" => props::c15::run(run),
+        #[cfg(not(feature = "vclock"))]
+        "C15" => {
+            eprintln!("C15 needs the virtual-clock workspace: use ./check C15 (builds /verif/harness_vclock)");
+            std::process::exit(2);
+        }
+        "C17" => props::c17::run(run),
+        "C20" => props::c20::run(run),
         _ => {
             eprintln!("no engine for property {id}");
             std::process::exit(2);
